@@ -339,6 +339,7 @@ func main() {
 			r.Parallel(int64(len(bases)), 1, func(w *mc.W, i int64) {
 				one(w, []byte(bases[i]))
 				mc.Mutations1([]byte(bases[i]), mc.AllBytes, func(m []byte) { one(w, m) })
+				mc.MutationsTok([]byte(bases[i]), mc.Lookalikes, func(m []byte) { one(w, m) })
 			})
 		})
 		r.Sample("text", txtArg{In: "urn:uuid:01234567-89ab-cdef-fedc-ba987654321g", Rule: 0})
